@@ -12,7 +12,10 @@ import ast
 from ..callgraph import show_path
 from ..model import AnalysisError, src
 from ..report import Report, key_of
+from ..terms import pretty
+from ..types import Ctx
 from .common import TRUSTED_BASE, cfg_nodes_for, is_run_edge, where
+from .purity import check_stateless
 
 CONSTRUCTION = ['Chain.__init__', 'Chain._prepare', 'MultiChain.__init__', 'MultiChain._prepare', 'Config.chain']
 CHAIN_INSPECTION = ['tasks_df', '__str__', '__repr__', '_repr_markdown_', 'get', '__getitem__', '__getattr__', '__contains__', 'get_task',
@@ -168,6 +171,46 @@ def run(A, R: Report, thorough: bool):
 
     # ---- R04.4 registry hit returns the registry entry
     check_registry_reuse(A, R, 'R04.4')
+
+    # ---- R04.5 exists() is a pure existence test of the visible path (with atomic publish: exists == complete)
+    from .c05 import persistent_data_classes
+    R.rule('R04.5', 'exists() of every data class is exactly an existence test of its visible path (no content / age / size condition that could make a stored result look missing)', floor=9)
+    for ci, vis in persistent_data_classes(A):
+        f = ci.lookup('exists')
+        t = A.sym.func_term(f, ('inst', ci))
+        ok = t[0] == 'method' and t[2] in ('exists', 'is_file', 'is_dir') and any(t[1] == v for v in vis)
+        R.check(ok, 'R04.5', f'{ci.short}.exists', key_of('exists-term', pretty(t)[:160]), f'exists() = {pretty(t)[:80]}',
+                f'{ci.short}.exists() is `{pretty(t)[:200]}`: a stored result can be reported missing, so its task runs again although the location is filled', where=where(f))
+
+    # ---- R04.6 inspection does not change the task / chain / config objects
+    R.rule('R04.6', 'inspection entry points store nothing on pre-existing objects (no cached answers that could go stale, no dropped results)', floor=10)
+    pure_names = ['has_data', 'data_path', 'path', 'run_info', 'log', 'name_for_persistence', 'is_forced', '_data_without_value', '__repr__', '__str__', '_repr_markdown_', 'get_config', 'input_tasks']
+    for c in task.all_subclasses():
+        for n in pure_names:
+            f = c.methods.get(n)
+            if f is None:
+                continue
+            check_stateless(A, R, 'R04.6', f.short, [Ctx(f, ('inst', k)) for k in c.all_subclasses() if k.lookup(n) is f],
+                            'an answer cached on the object outlives the state of the store (another chain or process may fill or clear the location), so a later request runs or skips wrongly', at=where(f))
+    chain = A.cls('Chain')
+    for n in ['tasks_df', '__str__', '__repr__', '_repr_markdown_', 'get', '__getitem__', '__getattr__', '__contains__', 'get_task', 'is_task_dependent_on', 'dependent_tasks', 'required_tasks']:
+        f = chain.methods.get(n)
+        if f is not None:
+            check_stateless(A, R, 'R04.6', f.short, [Ctx(f, ('inst', chain))], 'inspecting a chain must not change it', at=where(f))
+
+    # ---- R04.7 the in-memory result is dropped only by force(), reset_data() and the failure handler
+    R.rule('R04.7', 'self._data is reset to None only in __init__, force, reset_data and the failure handler of data', floor=3)
+    allowed = {'__init__', 'force', 'reset_data', 'data'}
+    for c in task.all_subclasses():
+        for name, f in c.methods.items():
+            for node in A.typer.own_nodes(f):
+                if isinstance(node, ast.Assign) and any(src(t) == 'self._data' for t in node.targets) and isinstance(node.value, ast.Constant) and node.value.value is None:
+                    ok = name in allowed
+                    if ok and name == 'data':
+                        cfg2 = A.cfg(f)
+                        ok = all(cn.id in cfg2.in_handler for cn in cfg_nodes_for(cfg2, node))
+                    R.check(ok, 'R04.7', f'{f.short}: `self._data = None`', key_of('memo-dropped', f.short), 'legitimate reset site',
+                            f'`{f.short}` drops the in-memory result: a later request from the same object runs the task again (in-memory tasks) or reloads needlessly', where=where(f, node))
 
 
 def check_registry_reuse(A, R: Report, rid: str):
